@@ -230,6 +230,9 @@ def families(tier='quick', seed=0):
                               'cond': ('or', ('id', 'A'), ('id', 'B'))})
     add('nested', 'not(n.f&m.g)', {'idents': {'A': M((K('n'), M((K('f'), S('a'))))), 'B': M((K('m'), M((K('g'), S('b')))))},
                                    'cond': ('not', ('and', ('id', 'A'), ('id', 'B')))})
+    # a key holding a list of blocks that share fields: with shake + matrix the blocks become a table inside the nested node,
+    # which is evaluated once per member of an array value
+    add('nested', 'n:[{f,g},{f,g}]', {'idents': {'A': M((K('n'), L(M((K('f'), S('a')), (K('g'), S('b'))), M((K('f'), S('c')), (K('g'), S('d'))))))}, 'cond': ('id', 'A')})
     add('nested', 'n:[{f},{f}]', {'idents': {'A': M((K('n'), L(M((K('f'), S('a'))), M((K('f'), S('b'))))))}, 'cond': ('id', 'A')})
     add('nested', 'seq n.f|n.g', {'idents': {'A': ('seq', [M((K('n'), M((K('f'), S('a'))))), M((K('n'), M((K('g'), S('b')))))])}, 'cond': ('id', 'A')})
     add('nested', 'n.f,n.f2 in one map', {'idents': {'A': M((K('n'), M((K('f'), S('a')))), (K('g'), S('c')))}, 'cond': ('id', 'A')})
@@ -510,7 +513,7 @@ MUST = {'single/"a\'', 'single/i\'a"', 'single/"',
         'list-mixed/*,>1', 'list-mixed/>=1,<=5', 'quant-short/all:>=1,<=5', 'modifier/str(f) float constant',
         'regex/i?^\\D+$', 'regex/i?\\Sa', 'modifier/{not(f), not(g), h}',
         'modifier/multi-word keys', 'modifier/all(multi-word key)', 'modifier/int(multi-word key)',
-        'modifier/wide-space key', 'modifier/str(wide-space key)', 'modifier/number-word key 2.0', 'modifier/number-word key 007', 'scalar/u64max', 'scalar/i64max+1', 'single/ a', 'single/a ', 'single/ a*', 'shake/A or B two maps', 'shake/A and B two seqs', 'shake/(A and B and C) or (D and E and F)', 'shake/(A or B or C) and (D or E or F)',
+        'modifier/wide-space key', 'modifier/str(wide-space key)', 'modifier/number-word key 2.0', 'modifier/number-word key 007', 'scalar/u64max', 'scalar/i64max+1', 'single/ a', 'single/a ', 'single/ a*', 'nested/n:[{f,g},{f,g}]', 'shake/A or B two maps', 'shake/A and B two seqs', 'shake/(A and B and C) or (D and E and F)', 'shake/(A or B or C) and (D or E or F)',
         'modifier/not(f) >1', 'modifier/not(f) <=1.5 under not', 'regex-rewrite/of2 twins', 'regex-rewrite/of2 twins+1', 'regex-rewrite/all twins', 'regex-rewrite/i?^ks', 'regex-rewrite/i?ks$',
         'shake/A or B or C one text two kinds', 'shake/seq one text two kinds', 'shake/seq one text two kinds i', 'quant-ident/all(tabled)', 'quant-ident/of(tabled,2)', 'quant-ident/all(part-tabled)', 'quant-ident/of(part-tabled,2)'}
 
